@@ -9,7 +9,7 @@ import (
 func init() { register("C08", checkC08) }
 
 var c08Origins = []string{"literal", "literal-raw", "file", "file-dash", "file-blank", "stdin", "stdin-prompt", "stdin-last-unterminated", "cmd"}
-var c08Paths = []string{"print", "assign", "concat", "compare", "arg", "arg-direct", "return", "slice-store", "slice-literal", "slice-load-copy", "range-string", "range-slice", "subscript", "len", "write", "panic", "switch"}
+var c08Paths = []string{"print", "assign", "concat", "compare", "arg", "arg-direct", "return", "slice-store", "slice-literal", "slice-load-copy", "range-string", "range-nested", "range-slice", "subscript", "len", "write", "panic", "switch"}
 
 // c08Program builds the program for one (origin, path) with value v. ok=false
 // when the combination is not defined (e.g. a raw literal cannot hold a backquote).
@@ -79,8 +79,9 @@ func c08Program(origin, path, v, place string) (bc BashCase, ok bool) {
 	case "compare":
 		stmts = append(stmts, def("w", V), pr(cmp("==", V, vr("w")), cmp("!=", V, vr("w")), cmp("==", V, sl("zz")), cmp("!=", V, sl("zz")), cmp("==", bin("+", V, sl("x")), V)))
 	case "arg":
-		stmts = append([]Stmt{fn("show", []Param{{"p", TString}, {"q", TString}}, nil, pr(vr("p")), pr(vr("q")))}, stmts...)
-		stmts = append(stmts, callS("show", V, sl("second")))
+		stmts = append([]Stmt{fn("show", []Param{{"p", TString}, {"q", TString}}, nil, pr(vr("p")), pr(vr("q"))), fn("idf", []Param{{"p", TString}}, []Type{TString}, ret(vr("p")))}, stmts...)
+		// as a variable, and as the result of a call standing directly in the argument list of a call statement
+		stmts = append(stmts, callS("show", V, sl("second")), callS("show", call("idf", V), sl("third")), callS("show", sl("fourth"), Group{call("idf", call("idf", V))}))
 	case "arg-direct":
 		if origin == "cmd" {
 			return bc, false // three-valued, cannot stand in an argument list
@@ -104,6 +105,10 @@ func c08Program(origin, path, v, place string) (bc BashCase, ok bool) {
 		stmts = append(stmts, def("t", SliceLit{TString, []Expr{sl("k")}}), SliceSet{"t", il(1), V}, VarDecl{Names: []string{"u"}, Type: TSliceString}, def("n", Copy{"u", vr("t")}), def("got", Index{"u", il(1)}), pr(vr("got")), pr(vr("n"), Index{"u", il(0)}))
 	case "range-string":
 		stmts = append(stmts, For{Kind: ForRange, RangeIdx: "i", RangeVal: "ch", Over: V, Body: []Stmt{pr(vr("i")), pr(vr("ch"))}}, pr(sl("end")))
+	case "range-nested":
+		// two loops over operands of different lengths inside each other, in both orders
+		stmts = append(stmts, For{Kind: ForRange, RangeIdx: "i", RangeVal: "a", Over: V, Body: []Stmt{For{Kind: ForRange, RangeIdx: "j", RangeVal: "b", Over: sl("xy"), Body: []Stmt{pr(vr("i"), vr("j")), pr(bin("+", vr("a"), vr("b")))}}}}, pr(sl("middle")),
+			For{Kind: ForRange, RangeIdx: "i", RangeVal: "a", Over: sl("xy"), Body: []Stmt{For{Kind: ForRange, RangeIdx: "j", RangeVal: "b", Over: V, Body: []Stmt{pr(vr("i"), vr("j")), pr(bin("+", vr("a"), vr("b")))}}}}, pr(sl("end")))
 	case "range-slice":
 		stmts = append(stmts, def("t", SliceLit{TString, []Expr{sl("k")}}), SliceSet{"t", il(1), V}, For{Kind: ForRange, RangeIdx: "i", RangeVal: "e", Over: vr("t"), Body: []Stmt{pr(vr("e"))}}, pr(sl("end")))
 	case "subscript":
